@@ -329,6 +329,12 @@ def finite(x):
 
 
 # ------------------------------------------------------------------ "lived-in" operands
+def _as_key(v, n):
+    """use v as a row key (mask or index vector) of another vector once"""
+    from serif import Vector
+    return Vector(list(range(n)))[v]
+
+
 LIVED_REALISED = [0, 0]      # [vectors with a realised history, fall-backs to a fresh vector] in this process
 
 
@@ -348,11 +354,16 @@ def lived_in(make, vals, seed):
     perm = list(range(n))
     rng.shuffle(perm)
     try:
-        v = make([vals[p] for p in perm])
+        start = [vals[p] for p in perm]
+        if n >= 3 or (n == 2 and rng.random() < 0.5):
+            j, k = rng.sample(range(n), 2)
+            start[j] = start[k]          # another MULTISET of values too: a remembered sum / min / count is then wrong
+        v = make(start)
         for probe in (lambda: v.sum(), lambda: v.mean(), lambda: v.min(), lambda: v.max(), lambda: v.stdev(),
                       lambda: v.any(), lambda: v.all(), lambda: v.fingerprint(), lambda: v == v, lambda: v.isna(),
                       lambda: v.dropna(), lambda: v.sort_by(), lambda: v[0:], lambda: -v, lambda: repr(v),
-                      lambda: v.real, lambda: v.year, lambda: v.upper(), lambda: v + v, lambda: v.copy()):
+                      lambda: v.real, lambda: v.year, lambda: v.upper(), lambda: v + v, lambda: v.copy(),
+                      lambda: _as_key(v, n)):
             try:
                 probe()
             except Exception:                                # noqa: BLE001
@@ -363,6 +374,8 @@ def lived_in(make, vals, seed):
             v[i] = vals[i]
         for i in order[: max(1, n // 2)]:
             v[i] = vals[i]
+        if rng.random() < 0.5:           # both parities of the write count (freed storage identities alternate)
+            v[order[0]] = vals[order[0]]
         got = list(v._underlying)
         if len(got) == n and all(type(a) is type(b) and (a is b or a == b or (a != a and b != b))
                                  for a, b in zip(got, vals)):
@@ -391,7 +404,12 @@ def lived_in_table(make, cols, seed, warm=None):
     while perm == list(range(n)):
         rng.shuffle(perm)
     try:
-        t = make([[c[p] for p in perm] for c in cols])
+        start = [[c[p] for p in perm] for c in cols]
+        if n >= 3:
+            j, k = rng.sample(range(n), 2)
+            for c in start:
+                c[j] = c[k]              # a different multiset of rows as well (row k twice, one row missing)
+        t = make(start)
         if warm is not None:
             try:
                 warm(t)
@@ -401,8 +419,7 @@ def lived_in_table(make, cols, seed, warm=None):
         for _pass in (0, 1):
             for j, c in enumerate(cols):
                 for i in range(n):
-                    if _pass == 1 or perm[i] != i:
-                        live[j][i] = c[i]
+                    live[j][i] = c[i]
         fresh = make(cols)
         ok = len(t._underlying) == len(fresh._underlying) and all(
             len(a._underlying) == len(b._underlying) and repr(a.schema()) == repr(b.schema())
